@@ -290,3 +290,15 @@ func runVariants(prop, repo, dir string, rep *Report) []map[string]interface{} {
 	}
 	return out
 }
+
+// cross-property registrations: a rule that is a necessary condition of several properties runs under each of them
+// (obligation keys carry the property id, so known findings are listed per property).
+func init() {
+	register("C01", Rule{"R03a", ruleNoWriteThrough})
+	register("C02", Rule{"R03a", ruleNoWriteThrough}, Rule{"R01d", ruleRowsMixing})
+	register("C04", Rule{"R03a", ruleNoWriteThrough}, Rule{"R01d", ruleRowsMixing})
+	register("C05", Rule{"R03a", ruleNoWriteThrough})
+	register("C07", Rule{"R06d", ruleComparatorProvenance})
+	register("C12", Rule{"R07b", ruleOrderedOutput})
+	register("C10", Rule{"R17d", ruleMapMissDeref}, Rule{"R17e", ruleActorRecover}, Rule{"R16d", ruleReentrantWait}, Rule{"R17a", ruleActorNoSelfComm})
+}
